@@ -46,8 +46,12 @@ def gen_case(rng):
             lines.append('RESI %d %s' % (num, cls))
         else:
             lines.append('RESI %s %d' % (cls, num) if cls else 'RESI %d' % num)
+        copied = rng.random() < 0.25      # a residue that was copied and not moved yet: the same text line for an atom of the same name
         for nm in atoms[num]:
             k += 1
+            if copied:
+                lines.append('%s 1 %.3f %.3f %.3f 11.0 0.04' % (nm, 0.011 * (NAMES.index(nm) + 1), 0.5, 0.3))
+                continue
             lines.append('%s 1 %.3f %.3f %.3f 11.0 0.04' % (nm if rng.random() < 0.8 else nm.lower(), 0.01 * k, 0.5, 0.3))
     lines.append('RESI 0')
     kw, obl, opt = rng.choice(KWS)
@@ -93,8 +97,17 @@ def gen_case(rng):
         else:
             t = it[1] + ('_%d' % it[2] if it[2] is not None else '') + ('_$1' if it[3] else '')
             toks.append(t)
-    lines.append(' '.join(toks))
+    LAST['restraint'] = ' '.join(toks)
+    resi_lines = [q for q, l in enumerate(lines) if l.startswith('RESI') and l != 'RESI 0']
+    if resi_lines and rng.random() < 0.3:
+        # the restraint stands next to the atoms of a residue, not in the header: a name without suffix still means residue 0
+        lines.insert(rng.choice(resi_lines) + 1, ' '.join(toks))
+    else:
+        lines.append(' '.join(toks))
     return lines, residues, atoms, sfx, items
+
+
+LAST = {}
 
 
 def impl_reported(text):
@@ -133,7 +146,7 @@ def run(ctx):
         status, inner, rep, shx = impl_reported(text)
         ev += 1
         hist[sfx[0]] = hist.get(sfx[0], 0) + 1
-        case = {'restraint': lines[-1], 'text': text}
+        case = {'restraint': LAST.get('restraint'), 'text': text}
         if status != 'ok' or inner:
             common.add_violation(ctx, 'file with a valid restraint raises', case, 'ok', '%s %s' % (status, inner))
             continue
@@ -197,7 +210,7 @@ def run(ctx):
         defs.append('Definition c%d : file_index * suffix * list ratom * list (str * option Z) := (%s, %s, %s, %s).' % (k, fi, sf, clist(ra), got))
         terms.append('chk c%d' % k)
         if k < 2:
-            common.sample(ctx, {'restraint': lines[-1], 'residues': residues, 'reported': rep})
+            common.sample(ctx, {'restraint': LAST.get('restraint'), 'residues': residues, 'reported': rep})
     pre = ('Definition pair_eqb (a b : str * option Z) : bool := str_eqb (fst a) (fst b) && match snd a, snd b with Some x, Some y => Z.eqb x y | None, None => true | _, _ => false end.\n'
            'Definition subset (a b : list (str * option Z)) : bool := forallb (fun x => existsb (pair_eqb x) b) a.\n'
            'Definition chk (c : file_index * suffix * list ratom * list (str * option Z)) : bool := let \'(fi, s, at, got) := c in\n'
